@@ -1,7 +1,7 @@
 (* Pinned statements of C08 (generated once by tools/mkpins.py from coq/props/C08.v, then committed). *)
 From DV Require Import Model.Base Model.NameCheck Model.Parser Model.Header Model.Readers Model.Uncompress
   Model.Mutate Model.Compress Model.Renamer Spec.PacketSpec Spec.RecordSpec Spec.PlainSpec Proofs.Hoare Proofs.HeaderBits Proofs.InsertLemmas Proofs.EdnsPlain Proofs.WalkSkip
-  Proofs.PlainWf Proofs.ViewAfter Proofs.InsertSpec Proofs.HeaderInv Proofs.CursorHist Proofs.DecompressFirst props.C08.
+  Proofs.PlainWf Proofs.ViewAfter Proofs.InsertSpec Proofs.HeaderInv Proofs.CursorHist Proofs.DecompressFirst Proofs.FreshHist props.C08.
 Check (C08_decompression_keeps_edns_summary : forall p v q v',
   bytes_ok p -> parse p = Ok v -> uncompress p = Ok q -> parse q = Ok v' ->
   pp_edns_count v' = pp_edns_count v /\ pp_ext_rcode v' = pp_ext_rcode v /\ pp_edns_version v' = pp_edns_version v /\
@@ -89,3 +89,8 @@ Check (C08_cursor_decompress : forall p v it qls qt lxa lxn lxr l1 r x l2,
     length lA' = length lxa /\ length lN' = length lxn /\ length lR' = length lxr /\
     Forall2 same_rec (lxa ++ lxn ++ lxr) (lA' ++ lN' ++ lR')).
 Print Assumptions C08_cursor_decompress.
+Check (C08_histories_from_parse_any_first : forall p v it o ops s1 s', bytes_ok p -> parse p = Ok v -> is_response p -> it_section it <> SQuestion ->
+  (o = H3Base H2Recompute \/ (exists sec rx, o = H3Base (H2Insert sec rx)) \/ (exists off, o = H3Delete off) \/ (exists off nm, o = H3SetName off nm)) ->
+  hop3_ok_at v o -> run_hop3 o (v, it) = (s1, Ok tt) -> ok_along ops s1 -> run_hops3 ops s1 = (s', Ok tt) ->
+  dinv (fst s') /\ snd s' = it /\ is_response (pp_packet (fst s'))).
+Print Assumptions C08_histories_from_parse_any_first.
